@@ -1,7 +1,7 @@
 SPECIFICATION Spec
 CONSTANTS
   Deviations <- AllDevs
-  Families <- AllFamilies
+  Families = {"relus_clips", "transposes"}
   Menu = "quick"
 INVARIANT ImplHolds
 CHECK_DEADLOCK FALSE
